@@ -229,7 +229,7 @@ def finish(ctx: Ctx, out: Outcome, t0: float) -> int:
     for key, vs in sorted(new.items()):
         rc = 1
         shown += 1
-        if shown > 8:
+        if shown > 60:
             continue
         rdir.mkdir(parents=True, exist_ok=True)
         slug = re.sub(r"[^A-Za-z0-9_.@-]+", "_", key)[:80]
@@ -237,6 +237,8 @@ def finish(ctx: Ctx, out: Outcome, t0: float) -> int:
         v = vs[0]
         path.write_text(json.dumps({"property": ctx.prop, "key": key, "case": v.case, "detail": v.detail,
                                     "cases": len(vs), "replay": v.replay}, indent=1, default=str))
+        if shown > 8:          # replay written, line not printed (the summary line below names the clause)
+            continue
         print(f"VIOLATION property={ctx.prop} replay={path}")
         print(f"  clause {key}: {v.detail[:600]} (case {v.case}; {len(vs)} failing cases)")
     if shown > 8:
